@@ -160,6 +160,33 @@ def check(run):
                 if run.too_many():
                     return
             k += 1
+    # prange write-set monitor on the interpreted body (decides every schedule from one execution): within one parallel loop no two
+    # iterations may write the same row of any array -- outputs, per-thread tables, or scratch allocated inside the function
+    from .. import hodrace
+
+    for rep in range(12 if run.quick else 120):
+        N = [300, 2000, 57, 1][rep % 4]
+        npart, nthread = [(6, 4), (3, 16), (16, 3), (2, 2)][rep % 4]
+        dtype = [np.float32, np.float64][rep % 2]
+        if rep % 6 == 4:
+            N, npart, nthread = 70001, 2, 4  # stripes of more than 2^15 particles (any size-dependent path of the sort pass)
+        pos, tag = make_positions(rng, N, 100.0, npart, rep % 3, dtype, ['uniform', 'dups'][rep % 2])
+        w = None if rep % 3 == 2 else tag.astype(dtype)
+        f, rec, npp = hodrace.monitored(tsc.partition_parallel)
+        rec.row_mode = True
+        run.ev()
+        try:
+            f(pos, npart, 100.0, weights=w, coord=rep % 3, nthread=nthread, sort=bool(rep % 4 != 3))
+        except Exception as e:
+            run.note_inconclusive(f'write-set monitor could not run the interpreted body: {type(e).__name__}: {e}'[:200])
+            break
+        conf = rec.conflicts()
+        run.count('write_set_rows_recorded', sum(len(r) for r in rec.regions))
+        run.count('write_set_regions', len(rec.regions))
+        run.nt(('write-set', rep))
+        if conf:
+            run.violation('partition-pass-shared-write', dict(N=N, npartition=npart, nthread=nthread, weights=w is not None, sort=bool(rep % 4 != 3), n_conflicting_rows=len(conf), example=conf[0]))
+            break
     # stress: few, very large stripes sorted concurrently with weights (several stripes of > 2^15 particles in flight at once), repeated
     nstress = 40 if run.quick else 300
     for rep in range(nstress):
